@@ -19,7 +19,11 @@ NEAR_OFFSET = [("(q0 - 1000.5) ** 6", {0: 1000.75}, lambda v: (v[0] - Fraction(2
                ("(q1 - 20.25) ** 8 + 1", {1: 20.5}, lambda v: (v[1] - Fraction(81, 4)) ** 8 + 1),
                ("(q0 - shift) ** 6 / (q1 + 2)", {0: 1000.75, 1: 20.5}, lambda v: (v[0] - Fraction(2001, 2)) ** 6 / (v[1] + 2)),
                ("(q2 - 512.5) * (q2 - 512.5) * (q2 - 512.5) * (q2 - 512.5)", {2: 512.625}, lambda v: (v[2] - Fraction(1025, 2)) ** 4),
-               ("(q0 - 4096.25) ** 4 - (q1 - 20.25) ** 2", {0: 4096.5, 1: 20.5}, lambda v: (v[0] - Fraction(16385, 4)) ** 4 - (v[1] - Fraction(81, 4)) ** 2)]
+               ("(q0 - 4096.25) ** 4 - (q1 - 20.25) ** 2", {0: 4096.5, 1: 20.5}, lambda v: (v[0] - Fraction(16385, 4)) ** 4 - (v[1] - Fraction(81, 4)) ** 2),
+               # integer measurement values (photon counts) and integer coefficients: the value is an exact, possibly large, integer
+               ("q0 ** 4 - 3 * q1", {0: 60000, 1: 7}, lambda v: v[0] ** 4 - 3 * v[1]),
+               ("q1 ** 3 * q0 + 1", {0: 5, 1: 3000000}, lambda v: v[1] ** 3 * v[0] + 1),
+               ("q2 * q2 * q2 - q0", {0: 3, 2: 2 ** 21}, lambda v: v[2] ** 3 - v[0])]
 
 
 def reg_expr(rng, regs, depth=2):
